@@ -8,5 +8,6 @@ CONSTANTS
   RootOps = FALSE
   MaxTreeDepth = 3
   MaxNodes = 3
+  FlagSets = "all"
 INVARIANTS TypeOK InvWF ModelProps
 CHECK_DEADLOCK FALSE
